@@ -47,6 +47,9 @@ REF = ["neo_hooke", "neo_hooke_compressible", "mooney_rivlin", "yeoh", "ogden"]
 REG = {"ogden": 100 * 1.4901161193847656e-08}
 
 
+CURVE_FAMS = ["hexahedron", "tetra", "hexahedron20", "tetra10", "quad", "triangle", "quad8", "quad9", "triangle6", "hexahedron27", "tetraMINI", "triangleMINI"]
+
+
 def case_patch(fam, rep):
     def fn(run):
         import felupe as fem
@@ -76,13 +79,27 @@ def case_patch(fam, rep):
             dof0, dof1 = fem.dof.partition(field, b)
             ext0 = fem.dof.apply(field, b, dof0)
             body = fem.SolidBody(umat, field)
+            label = "%s/%s" % (fam, name)
+            disturbed = (rep // 2) % 2 == 1
+            if disturbed:
+                # a start that is not the solution of the first linear step: Newton iterates at general (sheared) states
+                from scipy.spatial import cKDTree
+                hmin = float(cKDTree(X[geo]).query(X[geo], k=2)[0][:, 1].min())  # smallest node spacing
+                free = geo & ~onb
+                field[0].values[geo] = uex[geo]  # the boundary already at its prescribed values, the interior next to the solution
+                field[0].values[free] = uex[free] + 0.05 * hmin * rng.uniform(-1, 1, uex[free].shape)
+                run.units["patch:disturbed-start"] += 1
             try:
                 res = fem.newtonrhapson(items=[body], dof0=dof0, dof1=dof1, ext0=ext0, tol=1e-11, verbose=False)
             except ValueError as exc:
-                run.skip("homogeneous.patch", "Newton did not converge: " + str(exc).strip()[:40])
+                if disturbed:
+                    run.skip("homogeneous.patch", "Newton did not converge from the disturbed start: " + str(exc).strip()[:40])
+                    return
+                # the exact solution is reached by the first linear step from a zero start
+                run.fail("homogeneous.patch", "family=%s clause=patch-test-converges" % fam,
+                         "%s: the patch test did not converge (%s)" % (label, str(exc).strip()[:60]))
                 return
             u = res.x[0].values
-            label = "%s/%s" % (fam, name)
             run.compare("homogeneous.patch", "family=%s clause=affine-displacement" % fam, maxabs(u[geo] - uex[geo]) / max(maxabs(uex), 1e-300), 1e-8,
                         "%s: computed nodal displacements are not the prescribed affine map" % label, unit="patch:" + fam, config=(fam, name, "u"),
                         sample={"family": fam, "material": name, "A": A.tolist(), "points": int(nv), "max|u-u_exact|": maxabs(u[geo] - uex[geo])})
@@ -158,7 +175,20 @@ def case_curve(loadcase, fam, name, rep):
             symflag = bool(rep % 2)
             if loadcase == "uniaxial":
                 axis = int(rng.integers(0, d))
-                bounds, lc = fem.dof.uniaxial(field, clamped=False, axis=axis, sym=symflag)
+                symarg = symflag
+                if not symflag:
+                    # symmetry planes for the lateral axes only (without them the lateral rigid modes are free: a singular
+                    # system, no well-posed problem); along the loading axis the body may sit anywhere (the left end face is the
+                    # outermost left position of the points)
+                    symarg = tuple(a != axis for a in range(3))
+                if not symflag and rep % 4 == 2:
+                    shift = np.zeros(d)
+                    shift[axis] = float(rng.uniform(-2, 2))
+                    mesh.points[:] = mesh.points + shift
+                    field = problems.field_for(fam, mesh, "planestrain" if planestrain else "3d")
+                    body = fem.SolidBodyNearlyIncompressible(umat[0], field, bulk=umat[1]) if condensed else fem.SolidBody(umat, field)
+                    run.units["curve:body-away-from-origin"] += 1
+                bounds, lc = fem.dof.uniaxial(field, clamped=False, axis=axis, sym=symarg)
                 top = float(rng.uniform(0.15, 0.35)) * L[axis]
                 move = fem.math.linsteps([0, top, -0.3 * top] if cyclic else [0, top], num=nsub)[1:] if nsub > 1 else np.array([top])
                 key = "move"
@@ -186,7 +216,7 @@ def case_curve(loadcase, fam, name, rep):
                 job.evaluate(verbose=False, tol=1e-10)
             except ValueError as exc:
                 # Newton did not converge for this load level in the chosen subdivision: it raised (C07), nothing to compare
-                run.skip("homogeneous.curve", "job did not converge: " + str(exc).strip()[:40])
+                run.skip("homogeneous.curve", "job did not converge (%s/%s/%s, %d substeps): %s" % (loadcase, fam, name, nsub, str(exc).strip()[:40]))
                 return
             x = np.array(job.x)
             y = np.array(job.y)
@@ -243,6 +273,13 @@ def case_curve(loadcase, fam, name, rep):
                 if d == 3:
                     lams[[a for a in range(3) if a not in axes][0]] = OH.biaxial(W, la, lb)[2]
                 origin = np.zeros(d)
+            # uniform stretch state at every quadrature point, whatever rigid motion is left free: C = F^T F = diag(lams^2)
+            Fq = job.res.x.extract()[0][:d, :d]
+            Cq = np.einsum("kiqc,kjqc->ijqc", Fq, Fq)
+            run.compare("homogeneous.curve", "loadcase=%s family=%s clause=uniform-stretch-state" % (loadcase, fam),
+                        maxabs(Cq - np.diag(lams ** 2).reshape(d, d, 1, 1)), 1e-6 + 10 * REG.get(name, 0.0),
+                        "%s: the right Cauchy-Green tensor at the quadrature points is not diag(lambda_i^2) of the homogeneous state" % label,
+                        unit="curve:%s:uniform-C" % loadcase, config=(loadcase, fam, name, "C"))
             if origin is not None:
                 uex = X * (lams - 1)
                 run.compare("homogeneous.curve", "loadcase=%s family=%s clause=homogeneous-displacement" % (loadcase, fam), maxabs(u[geo] - uex[geo]) / max(maxabs(uex), 1e-300),
@@ -257,6 +294,102 @@ def case_curve(loadcase, fam, name, rep):
                         unit="curve:record")
         finally:
             attach.detach_all()
+    return fn
+
+
+def case_curve_other(rep):
+    """Homogeneous problems driven in other documented ways: a biaxial load case without symmetry planes on a body away from
+    the origin (both faces of an axis move), a load-controlled uniaxial state (ramp keyed by a follower-pressure item, forces
+    from the body's own results), the reaction tracked on a face that is not the moved one."""
+    def fn(run):
+        import felupe as fem
+        rng = rng_for(run.seed, "C09", "curve-other", rep)
+        variant = rep % 3
+        fam = ["hexahedron", "hexahedron20", "tetra10", "hexahedron27"][(rep // 3) % 4]
+        mesh, L = problems.box_mesh(fam, rng, curved_interior=bool(rep % 2))
+        name = ["neo_hooke", "neo_hooke_compressible", "mooney_rivlin"][rep % 3]
+        umat, W, p = ref_material(rng, name)
+        label = "curve-other/%d/%s/%s" % (variant, fam, name)
+        try:
+            if variant == 0:
+                off = rng.uniform(-2, 2, 3)
+                mesh = mesh.copy(points=mesh.points + off)
+                field = problems.field_for(fam, mesh, "3d")
+                body = fem.SolidBody(umat, field)
+                axes = [(0, 1), (1, 2), (2, 0)][(rep // 3) % 3]
+                third = [a for a in range(3) if a not in axes][0]
+                sym = [False, False, False]
+                sym[third] = True
+                # the symmetry plane of the third axis sits at the origin (documented): put that face of the body there
+                shift = np.zeros(3)
+                shift[third] = -mesh.points[:, third].min()
+                mesh.points[:] = mesh.points + shift
+                field = problems.field_for(fam, mesh, "3d")
+                body = fem.SolidBody(umat, field)
+                bnd, _ = fem.dof.biaxial(field, axes=axes, sym=tuple(sym), moves=(0.0, 0.0))
+                top = np.array([float(rng.uniform(0.05, 0.15)) * L[axes[0]], float(rng.uniform(-0.05, 0.12)) * L[axes[1]]])
+                t = np.array([0.5, 1.0])
+                ramp = {bnd["move-right-%d" % axes[0]]: t * top[0], bnd["move-left-%d" % axes[0]]: -t * top[0],
+                        bnd["move-right-%d" % axes[1]]: t * top[1], bnd["move-left-%d" % axes[1]]: -t * top[1]}
+                job = fem.CharacteristicCurve([fem.Step([body], ramp=ramp, boundaries=bnd)], bnd["move-right-%d" % axes[0]])
+                job.evaluate(verbose=False, tol=1e-10)
+                y = np.array(job.y)
+                others = [a for a in range(3) if a != axes[0]]
+                worst, lams = 0.0, None
+                for k in range(2):
+                    l1, l2 = 1 + 2 * t[k] * top[0] / L[axes[0]], 1 + 2 * t[k] * top[1] / L[axes[1]]
+                    P11, P22, l3 = OH.biaxial(W, l1, l2)
+                    worst = max(worst, abs(y[k][axes[0]] - P11 * np.prod(L[others])) / abs(P11 * np.prod(L[others])))
+                    lams = np.ones(3)
+                    lams[axes[0]], lams[axes[1]], lams[third] = l1, l2, l3
+                run.compare("homogeneous.curve", "loadcase=biaxial-without-symmetry clause=reaction-force", worst, 1e-7,
+                            "%s: recorded reaction force differs from the analytic P * A0" % label, unit="curve:biaxial:no-symmetry", config=("other", 0, fam, name))
+            else:
+                field = problems.field_for(fam, mesh, "3d")
+                body = fem.SolidBody(umat, field)
+                bnd = fem.dof.symmetry(field[0])
+                X = mesh.points
+                if variant == 1:
+                    Rb = {"hexahedron": fem.RegionHexahedronBoundary, "hexahedron20": fem.RegionQuadraticHexahedronBoundary,
+                          "hexahedron27": fem.RegionTriQuadraticHexahedronBoundary}.get(fam)
+                    if Rb is None:
+                        run.skip("homogeneous.curve", "no boundary region for this family")
+                        return
+                    fb = fem.FieldContainer([fem.Field(Rb(mesh, mask=np.isclose(X[:, 0], L[0])), dim=3)])
+                    pr = fem.SolidBodyPressure(fb)
+                    lam = np.array([1.1, 1.25]) if rep % 2 else np.array([0.9, 1.2, 1.3])
+                    pv = []
+                    for l in lam:
+                        P11, l2, l3 = OH.uniaxial(W, l)
+                        pv.append(-P11 / (l2 * l3))  # p = - sigma_11
+                    right = fem.Boundary(field[0], fx=L[0], skip=(0, 1, 1))  # tracked only, no constraint
+                    job = fem.CharacteristicCurve([fem.Step([body, pr], ramp={pr: np.array(pv)}, boundaries=bnd)], right, items=[body])
+                    job.evaluate(verbose=False, tol=1e-10)
+                    x, y = np.array(job.x), np.array(job.y)
+                    A0 = L[1] * L[2]
+                    ref = np.array([OH.uniaxial(W, l)[0] * A0 for l in lam])
+                    run.compare("homogeneous.curve", "loadcase=pressure-controlled clause=recorded-displacement", maxabs(x[:, 0] - (lam - 1) * L[0]) / L[0], 1e-8,
+                                "%s: the displacement reached under the follower pressure is not (lambda - 1) L" % label, unit="curve:pressure-controlled", config=("other", 1, fam, name))
+                    run.compare("homogeneous.curve", "loadcase=pressure-controlled clause=reaction-force", maxabs(y[:, 0] - ref) / maxabs(ref), 1e-7,
+                                "%s: the force of the body on the loaded face is not P * A0" % label, unit="curve:pressure-controlled")
+                    lams = np.array([lam[-1], OH.uniaxial(W, lam[-1])[1], OH.uniaxial(W, lam[-1])[2]])
+                else:
+                    b2, _ = fem.dof.uniaxial(field, clamped=False, axis=0, sym=True)
+                    mv = np.array([0.1, 0.2]) * L[0]
+                    job = fem.CharacteristicCurve([fem.Step([body], ramp={b2["move"]: mv}, boundaries=b2)], b2["symx"])
+                    job.evaluate(verbose=False, tol=1e-10)
+                    y = np.array(job.y)
+                    ref = np.array([-OH.uniaxial(W, 1 + m / L[0])[0] * L[1] * L[2] for m in mv])
+                    run.compare("homogeneous.curve", "loadcase=uniaxial tracked=symmetry-face clause=reaction-force", maxabs(y[:, 0] - ref) / maxabs(ref), 1e-7,
+                                "%s: the reaction on the symmetry face is not -P * A0" % label, unit="curve:tracked-other-face", config=("other", 2, fam, name))
+                    l = 1 + mv[-1] / L[0]
+                    lams = np.array([l, OH.uniaxial(W, l)[1], OH.uniaxial(W, l)[2]])
+            Fq = job.res.x.extract()[0]
+            Cq = np.einsum("kiqc,kjqc->ijqc", Fq, Fq)
+            run.compare("homogeneous.curve", "loadcase=other[%d] clause=uniform-stretch-state" % variant, maxabs(Cq - np.diag(lams ** 2).reshape(3, 3, 1, 1)), 1e-6,
+                        "%s: the right Cauchy-Green tensor at the quadrature points is not diag(lambda_i^2)" % label, unit="curve:other:uniform-C")
+        except ValueError as exc:
+            run.skip("homogeneous.curve", "job did not converge: " + str(exc).strip()[:40])
     return fn
 
 
@@ -389,7 +522,7 @@ def cases(tier, seed):
             out.append(("patch-lagrange:%d:%d:%d" % (order, dim, rep), case_patch_lagrange(order, dim, rep)))
     k = 0
     for loadcase in ("uniaxial", "biaxial"):
-        fams = ["hexahedron", "tetra", "hexahedron20", "tetra10", "quad", "triangle", "quad8", "quad9", "triangle6", "hexahedron27"]
+        fams = list(CURVE_FAMS)
         for fam in fams:
             for name in (REF if tier == "thorough" else [REF[k % 5]]):
                 for rep in range(reps * (2 if tier == "thorough" else 1)):
@@ -400,6 +533,8 @@ def cases(tier, seed):
             out.append(("view:%s:%d" % (name, rep), case_view(name, rep)))
     for rep in range(2 if tier == "quick" else 6):
         out.append(("curve-multi:%d" % rep, case_curve_multi(rep)))
+    for rep in range(6 if tier == "quick" else 24):
+        out.append(("curve-other:%d" % rep, case_curve_other(rep)))
     return out
 
 
@@ -407,7 +542,8 @@ SPEC = {
     "required_units": ["patch:" + f for f in FAMS3 + FAMS2] + ["patch:tetraMINI:bubble", "patch:hexahedron:F", "curve:uniaxial:3d", "curve:uniaxial:planestrain",
                        "curve:biaxial:3d", "curve:biaxial:planestrain", "curve:uniaxial:x", "curve:uniaxial:field", "view:Uniaxial", "view:Planar Shear",
                        "view:Biaxial", "patch:lagrange[order<=2]", "patch:lagrange[order>=3,dim=2]", "curve:multi:two-steps", "curve:multi:no-ramp", "curve:multi:mixed", "view:statevars:Uniaxial", "view:statevars:Planar Shear", "view:statevars:Biaxial", "view:Uniaxial (Incompressible)", "view:Planar Shear (Incompressible)", "view:Biaxial (Incompressible)"]
-    + ["curve:material:" + n for n in REF],
+    + ["curve:material:" + n for n in REF] + ["curve:family:" + f for f in CURVE_FAMS]
+    + ["curve:uniaxial:uniform-C", "curve:biaxial:uniform-C", "curve:body-away-from-origin", "curve:record", "patch:disturbed-start", "curve:biaxial:no-symmetry", "curve:pressure-controlled", "curve:tracked-other-face"],
     "rule": ("displacement patch tests (random affine map on the whole boundary) on 12 element families with interior distortion, 3D and plane "
              "strain; uniaxial and biaxial load cases with CharacteristicCurve jobs (1, 3, 7 substeps, cyclic ramps, with/without symmetry "
              "planes, SolidBody and condensed nearly-incompressible body) on 10 families x 5 materials with oracle-side closed forms; material-"
